@@ -24,4 +24,7 @@ const (
 
 	StateTransitionFailedForExtensionMessageFormat string = "State transition from %s to %s failed for extension %s. Error: %s"
 	StateTransitionFailedForRuntimeMessageFormat   string = "State transition from %s to %s failed for runtime. Error: %s"
+
+	runtimeNotRegisteredStateName string = "NotRegistered"
+	runtimeNotRegisteredError     string = "runtime is not registered"
 )
